@@ -69,14 +69,51 @@ static double ulp(double x)
 	return nextafter(x, INFINITY) - x;
 }
 
+// The per-field accessors year() ... weekDay() and split() are local-time based.  The driver sets TZ=UTC, so they must
+// give the UTC fields; they are compared only when the process really runs in UTC (otherwise a search is an
+// infrastructure error and a replay skips these comparisons).
+static bool local_is_utc()
+{
+	static const bool ok = []() {
+		const char* tz = getenv("TZ");
+		if (!tz || strcmp(tz, "UTC") != 0)
+			return false;
+		for (double t : {0.0, 1.7e9, 1.72e9, -3.0e9, 2.0e11, -6.0e10})
+			if (Date(t).localOffset() != 0)
+				return false;
+		return true;
+	}();
+	return ok;
+}
+static DateData accessors(const Date& d)
+{
+	DateData p;
+	p.year = d.year();
+	p.month = d.month();
+	p.day = d.day();
+	p.hours = d.hours();
+	p.minutes = d.minutes();
+	p.seconds = d.seconds();
+	p.weekDay = d.weekDay();
+	return p;
+}
+
 // whole-second instant: fields, weekday, inverse, and the four format/parse round trips
-static void check_instant(int64_t t)
+static void check_instant(int64_t t, bool all_accessors = true)
 {
 	const double td = (double)t;
 	const ref::Fields f = ref::fields_from_seconds(t);
 	Date d(td);
 	DateData p = d.splitUTC();
 	VF_CHECK(same(p, f), "splitUTC of t=", t, " gives ", show(p), ", calendar says ", ref::fields_str(f));
+	if (local_is_utc()) {
+		if (all_accessors) {
+			DateData q = accessors(d);
+			VF_CHECK(same(q, f), "year()/month()/day()/hours()/minutes()/seconds()/weekDay() of t=", t, " (TZ=UTC) give ", show(q), ", calendar says ", ref::fields_str(f));
+		}
+		DateData l = d.split();
+		VF_CHECK(same(l, f), "split() of t=", t, " (TZ=UTC) gives ", show(l), ", calendar says ", ref::fields_str(f));
+	}
 	Date c(Date::UTC, (int)f.year, f.month, f.day, f.hours, f.minutes, f.seconds);
 	VF_CHECK(c.time() == td, "Date(UTC, ", ref::fields_str(f), ").time() = ", num(c.time()), ", want ", t, " (delta ", num(c.time() - td), ")");
 	for (const Fmt& fm : FORMATS) {
@@ -122,6 +159,11 @@ static void op_frac(const vf::Op& o)
 	DateData p = d.splitUTC();
 	VF_CHECK(same(p, a) || (carry_ok && same(p, b)), "splitUTC of t=", num(t), " gives ", show(p), ", the instant lies in ", ref::fields_str(a),
 	         carry_ok ? " (or, rounded to the millisecond, " + ref::fields_str(b) + ")" : std::string());
+	if (local_is_utc()) {
+		DateData q = accessors(d);
+		VF_CHECK(same(q, a) || (carry_ok && same(q, b)), "year()...weekDay() of t=", num(t), " (TZ=UTC) give ", show(q), ", the instant lies in ", ref::fields_str(a),
+		         carry_ok ? " (or, rounded to the millisecond, " + ref::fields_str(b) + ")" : std::string());
+	}
 	for (const Fmt& fm : FORMATS) {
 		std::string text = S(d.toUTCString(fm.f));
 		double r = parse(text);
@@ -213,9 +255,12 @@ void vf_run_case(const std::string&, const vf::Case& c)
 	for (auto& o : c.ops) {
 		if (o.name == "day") {
 			int64_t z = fold(o.i(0), ref::CIVIL_DAY_MIN, ref::CIVIL_DAY_MAX);
-			check_instant(z * 86400);
-			check_instant(z * 86400 + 43200);
-			check_instant(z * 86400 + 86399);
+			// split() at all three instants; the seven single-field accessors (each a separate split) at one of them,
+			// rotating with the day number (budget: this op runs 3.65 million times in a quick run)
+			int k = (int)ref::floormod(z, 3);
+			check_instant(z * 86400, k == 0);
+			check_instant(z * 86400 + 43200, k == 1);
+			check_instant(z * 86400 + 86399, k == 2);
 		}
 		else if (o.name == "sec")
 			check_instant(fold(o.i(0), T_MIN, T_MAX));
@@ -495,6 +540,10 @@ void vf_search(const vf::Args& a)
 		t0 = t;
 	};
 
+	if (!local_is_utc()) {
+		printf("INFRA the harness must run with TZ=UTC (local-time accessors are compared with UTC fields)\n");
+		exit(2);
+	}
 	// (0) the reference calendar against the python datetime digests and a day-by-day odometer
 	if (a.worker == 0) {
 		std::string why;
